@@ -21,8 +21,6 @@ Definition C2_on (f : R -> R) (a b : R) : Prop :=
 (* the uniform grid a, a+h, ..., a+n h *)
 Definition ugrid (a h : R) (n : nat) : list R := map (fun j => a + INR j * h) (seq 0 (S n)).
 
-Ltac eqR := match goal with |- ?x = ?y => change (@eq R x y) end.
-
 Lemma C2_on_sub f a b c d : a <= c -> d <= b -> C2_on f a b -> C2_on f c d.
 Proof. intros H1 H2 HC x Hx. apply HC. lra. Qed.
 
@@ -209,7 +207,7 @@ Proof.
   intros Hk Hdr HC HM. rewrite G_to_F_eq, ft_sampled_value by exact Hk.
   pose proof (trapz_uniform_error (fun r => G r * sin (r * Q)) 0 dr M N Hdr) as E.
   rewrite Rplus_0_l in E. specialize (E HC HM).
-  replace (M * (INR N * dr) * dr ^ 2 / 12) with (M * INR N * dr ^ 3 / 12) by ring.
+  replace (M * (INR N * dr) * dr ^ 2 / 12) with (M * INR N * dr ^ 3 / 12) by field.
   exact E.
 Qed.
 
@@ -235,6 +233,166 @@ Proof.
   rewrite Rabs_mult, (Rabs_pos_eq (2 / PI)).
   2:{ apply Rlt_le, Rdiv_lt_0_compat; lra. }
   apply Rmult_le_compat_l; [apply Rlt_le, Rdiv_lt_0_compat; lra|].
-  replace (M * (INR N * dq) * dq ^ 2 / 12) with (M * INR N * dq ^ 3 / 12) by ring.
+  replace (M * (INR N * dq) * dq ^ 2 / 12) with (M * INR N * dq ^ 3 / 12) by field.
   exact E.
+Qed.
+
+(* ---------- the hypotheses are satisfiable: explicit derivatives ---------- *)
+Lemma C2_on_explicit (f f1 f2 : R -> R) (a b : R) :
+  (forall x, is_derive f x (f1 x)) -> (forall x, is_derive f1 x (f2 x)) ->
+  (forall x, continuous f2 x) ->
+  C2_on f a b /\ (forall x, Derive_n f 2 x = f2 x).
+Proof.
+  intros H1 H2 H3.
+  assert (E1 : forall x, Derive f x = f1 x) by (intros x; apply is_derive_unique, H1).
+  assert (E2 : forall x, Derive_n f 2 x = f2 x).
+  { intros x. change (Derive_n f 2 x) with (Derive (Derive f) x).
+    rewrite (Derive_ext (Derive f) f1 x E1). apply is_derive_unique, H2. }
+  split; [|exact E2].
+  intros x _. split; [|split].
+  - exists (f1 x). apply H1.
+  - apply (ex_derive_ext f1 (Derive f)); [intros t; symmetry; apply E1|]. exists (f2 x). apply H2.
+  - apply (continuous_ext f2 (Derive_n f 2)); [intros t; symmetry; apply E2|]. apply H3.
+Qed.
+
+(* x^3 on [0,1]:  f'' = 6x <= 6 *)
+Lemma cube_C2 a b : C2_on (fun x => x ^ 3) a b /\ (forall x, Derive_n (fun x => x ^ 3) 2 x = 6 * x).
+Proof.
+  apply (C2_on_explicit (fun x => x ^ 3) (fun x => 3 * x ^ 2) (fun x => 6 * x)).
+  - intros x. auto_derive; [auto | ring].
+  - intros x. auto_derive; [auto | ring].
+  - intros x. apply (@ex_derive_continuous R_AbsRing R_NormedModule). auto_derive; auto.
+Qed.
+Example trapz_panel_error_nonvacuous :
+  0 <= 1 /\ C2_on (fun x => x ^ 3) 0 (0 + 1) /\
+  (forall x, 0 <= x <= 0 + 1 -> Rabs (Derive_n (fun x => x ^ 3) 2 x) <= 6) /\
+  Rabs (RInt (fun x => x ^ 3) 0 (0 + 1) - 1 * (0 ^ 3 + (0 + 1) ^ 3) / 2) <= 6 * 1 ^ 3 / 12.
+Proof.
+  destruct (cube_C2 0 (0 + 1)) as [HC HD].
+  assert (HM : forall x, 0 <= x <= 0 + 1 -> Rabs (Derive_n (fun x => x ^ 3) 2 x) <= 6).
+  { intros x Hx. rewrite HD. apply Rabs_le. lra. }
+  split; [lra|]. split; [exact HC|]. split; [exact HM|].
+  apply (trapz_panel_error (fun x => x ^ 3) 0 1 6); [lra | exact HC | exact HM].
+Qed.
+Example trapz_uniform_error_nonvacuous :
+  0 < 1 / 2 /\ C2_on (fun x => x ^ 3) 0 (0 + INR 2 * (1 / 2)) /\
+  (forall x, 0 <= x <= 0 + INR 2 * (1 / 2) -> Rabs (Derive_n (fun x => x ^ 3) 2 x) <= 6) /\
+  Rabs (RInt (fun x => x ^ 3) 0 (0 + INR 2 * (1 / 2))
+        - trapz (ugrid 0 (1 / 2) 2) (map (fun x => x ^ 3) (ugrid 0 (1 / 2) 2)))
+    <= 6 * INR 2 * (1 / 2) ^ 3 / 12.
+Proof.
+  destruct (cube_C2 0 (0 + INR 2 * (1 / 2))) as [HC HD].
+  assert (HM : forall x, 0 <= x <= 0 + INR 2 * (1 / 2) -> Rabs (Derive_n (fun x => x ^ 3) 2 x) <= 6).
+  { intros x Hx. rewrite HD. simpl INR in Hx. apply Rabs_le. lra. }
+  split; [lra|]. split; [exact HC|]. split; [exact HM|].
+  apply (trapz_uniform_error (fun x => x ^ 3) 0 (1 / 2) 6 2); [lra | exact HC | exact HM].
+Qed.
+
+(* F(q) = q, r = 1 on the grid 0,1,2:  (q sin q)'' = 2 cos q - q sin q, bounded by 4 on [0,2] *)
+Lemma qsin_C2 a b :
+  C2_on (fun q => q * sin (q * 1)) a b /\
+  (forall q, Derive_n (fun q => q * sin (q * 1)) 2 q = 2 * cos (q * 1) - q * sin (q * 1)).
+Proof.
+  apply (C2_on_explicit (fun q => q * sin (q * 1)) (fun q => sin (q * 1) + q * cos (q * 1))
+           (fun q => 2 * cos (q * 1) - q * sin (q * 1))).
+  - intros x. auto_derive; [auto | ring].
+  - intros x. auto_derive; [auto | ring].
+  - intros x. apply (@ex_derive_continuous R_AbsRing R_NormedModule). auto_derive; auto.
+Qed.
+Example F_to_G_converges_nonvacuous :
+  plain plain_kw /\ 0 < 1 /\
+  C2_on (fun q => q * sin (q * 1)) 0 (INR 2 * 1) /\
+  (forall q, 0 <= q <= INR 2 * 1 -> Rabs (Derive_n (fun q => q * sin (q * 1)) 2 q) <= 4) /\
+  Rabs (2 / PI * RInt (fun q => q * sin (q * 1)) 0 (INR 2 * 1)
+        - nth 0 (vals (F_to_G (rgrid 2 1) (map (fun q => q) (rgrid 2 1)) [1] None plain_kw)) 0)
+    <= 2 / PI * (4 * (INR 2 * 1) * 1 ^ 2 / 12).
+Proof.
+  assert (P : plain plain_kw) by (split; reflexivity).
+  destruct (qsin_C2 0 (INR 2 * 1)) as [HC HD].
+  assert (HM : forall q, 0 <= q <= INR 2 * 1 -> Rabs (Derive_n (fun q => q * sin (q * 1)) 2 q) <= 4).
+  { intros q Hq. rewrite HD. simpl INR in Hq.
+    pose proof (COS_bound (q * 1)). pose proof (SIN_bound (q * 1)).
+    apply Rabs_le. split; nra. }
+  split; [exact P|]. split; [lra|]. split; [exact HC|]. split; [exact HM|].
+  apply (F_to_G_converges (fun q => q) 2 1 1 4 None plain_kw P); [lra | exact HC | exact HM].
+Qed.
+
+(* ---------- the closed-form family member G(r) = r exp(-r^2), Q = 2, on [0,8] ---------- *)
+Definition member_integrand (r : R) : R := r * exp (- r * r) * sin (r * 2).
+Definition member_d2 (r : R) : R :=
+  exp (- r * r) * ((4 * r ^ 3 - 10 * r) * sin (r * 2) + 4 * (1 - 2 * r ^ 2) * cos (r * 2)).
+
+Lemma member_C2 a b :
+  C2_on member_integrand a b /\ (forall r, Derive_n member_integrand 2 r = member_d2 r).
+Proof.
+  apply (C2_on_explicit member_integrand
+           (fun r => exp (- r * r) * ((1 - 2 * r ^ 2) * sin (r * 2) + 2 * r * cos (r * 2))) member_d2).
+  - intros x. unfold member_integrand. auto_derive; [auto | ring].
+  - intros x. unfold member_d2. auto_derive; [auto | ring].
+  - intros x. unfold member_d2.
+    apply (@ex_derive_continuous R_AbsRing R_NormedModule). auto_derive; auto.
+Qed.
+
+Lemma member_d2_bound (r : R) : 0 <= r <= 8 -> Rabs (member_d2 r) <= 40.
+Proof. intros Hr. unfold member_d2. interval with (i_bisect r). Qed.
+
+Lemma member_hypotheses :
+  C2_on (fun r => r * exp (- r * r) * sin (r * 2)) 0 8 /\
+  (forall r, 0 <= r <= 8 -> Rabs (Derive_n (fun r => r * exp (- r * r) * sin (r * 2)) 2 r) <= 40).
+Proof.
+  destruct (member_C2 0 8) as [HC HD]. split; [exact HC|].
+  intros r Hr. change (Rabs (Derive_n member_integrand 2 r) <= 40).
+  rewrite HD. apply member_d2_bound, Hr.
+Qed.
+
+(* the model's discrete transform of the sampled member on N panels of [0,8] *)
+Theorem member_discretisation_error (N : nat) dg (k : kw R) : plain k -> (1 <= N)%nat ->
+  Rabs (RInt (fun r => r * exp (- r * r) * sin (r * 2)) 0 8
+        - nth 0 (vals (G_to_F (rgrid N (8 / INR N)) (map (fun r => r * exp (- r * r)) (rgrid N (8 / INR N)))
+                              [2] dg k)) 0)
+    <= 40 * 8 * (8 / INR N) ^ 2 / 12.
+Proof.
+  intros Hk HN. destruct member_hypotheses as [HC HM].
+  assert (Hn : 0 < INR N) by (apply lt_0_INR; lia).
+  assert (E8 : INR N * (8 / INR N) = 8) by (field; lra).
+  pose proof (G_to_F_converges (fun r => r * exp (- r * r)) N (8 / INR N) 2 40 dg k Hk) as E.
+  rewrite E8 in E. apply E; [apply Rdiv_lt_0_compat; lra | exact HC | exact HM].
+Qed.
+
+Theorem closed_form_member_converges (N : nat) dg (k : kw R) : plain k -> (1 <= N)%nat ->
+  Rabs (nth 0 (vals (G_to_F (rgrid N (8 / INR N)) (map (fun r => r * exp (- r * r)) (rgrid N (8 / INR N)))
+                            [2] dg k)) 0
+        - sqrt PI * 2 / 4 * exp (-1))
+    <= 1e-9 + 1706.67 / INR N ^ 2.
+Proof.
+  intros Hk HN.
+  pose proof (member_discretisation_error N dg k Hk HN) as D.
+  pose proof anchor_r_to_Q as A.
+  rewrite (RInt_ext _ (fun r => r * exp (- r * r) * sin (r * 2))) in A.
+  2:{ intros x _. rewrite (Rmult_comm 2 x). reflexivity. }
+  assert (Hn : 0 < INR N) by (apply lt_0_INR; lia).
+  set (v := nth 0 _ 0) in *. set (I := RInt _ 0 8) in *. set (c := sqrt PI * 2 / 4 * exp (-1)) in *.
+  assert (B : 40 * 8 * (8 / INR N) ^ 2 / 12 <= 1706.67 / INR N ^ 2).
+  { replace (40 * 8 * (8 / INR N) ^ 2 / 12) with (20480 / 12 * / INR N ^ 2) by (field; lra).
+    unfold Rdiv at 2. apply Rmult_le_compat_r; [|lra].
+    apply Rlt_le, Rinv_0_lt_compat, pow_lt, Hn. }
+  replace (v - c) with (- (I - v) + (I - c)) by ring.
+  eapply Rle_trans; [apply Rabs_triang|]. rewrite Rabs_Ropp. lra.
+Qed.
+
+(* the hypotheses of G_to_F_converges on a concrete instance: the member on 4 panels of width 2 *)
+Example G_to_F_converges_nonvacuous :
+  plain plain_kw /\ 0 < 2 /\
+  C2_on (fun r => r * exp (- r * r) * sin (r * 2)) 0 (INR 4 * 2) /\
+  (forall r, 0 <= r <= INR 4 * 2 ->
+     Rabs (Derive_n (fun r => r * exp (- r * r) * sin (r * 2)) 2 r) <= 40) /\
+  Rabs (RInt (fun r => r * exp (- r * r) * sin (r * 2)) 0 (INR 4 * 2)
+        - nth 0 (vals (G_to_F (rgrid 4 2) (map (fun r => r * exp (- r * r)) (rgrid 4 2)) [2] None plain_kw)) 0)
+    <= 40 * (INR 4 * 2) * 2 ^ 2 / 12.
+Proof.
+  assert (P : plain plain_kw) by (split; reflexivity).
+  assert (E8 : INR 4 * 2 = 8) by (simpl; lra).
+  destruct member_hypotheses as [HC HM]. rewrite <- E8 in HC, HM.
+  split; [exact P|]. split; [lra|]. split; [exact HC|]. split; [exact HM|].
+  apply (G_to_F_converges (fun r => r * exp (- r * r)) 4 2 2 40 None plain_kw P); [lra | exact HC | exact HM].
 Qed.
